@@ -160,6 +160,10 @@ func Yield() { runtime.Gosched() }
 // Tick fires the earliest pending virtual timer (engine); natively it waits.
 func Tick() bool { time.Sleep(150 * time.Millisecond); return false }
 
+// TickPeriodic fires every pending virtual ticker once (engine); natively it
+// waits for one real period of the 100 ms tickers in the code under test.
+func TickPeriodic() bool { time.Sleep(120 * time.Millisecond); return false }
+
 // Param returns a harness bound chosen per tier.
 func Param(name string, def int) int {
 	if v, ok := st.file.Params[name]; ok {
